@@ -614,3 +614,94 @@ def replay_call_history(p):
                 problems.append("after earlier calls, %r returns %s; a fresh evaluator returns %s" % (c, show(got), show(want)))
     return {"reproduced": bool(problems), "expected": "no call changes the result of a later call",
             "observed": "; ".join(problems[:2]) or "all calls agree with fresh evaluators"}
+
+
+@register("lifecycle_search")
+def replay_lifecycle_search(p):
+    """Bounded search: every sequence new(T0); op1..op4 with op in recompile(valid/invalid texts) on one evaluator next
+    to a bystander; after each step the evaluator must behave like a fresh one built from its last accepted text and an
+    invalid text must raise every time."""
+    import contextlib
+    import io
+    import itertools
+    from pyab_experiment.experiment_evaluator import ExperimentEvaluator
+    A = 'def exp_a { splitters: uid return "a1" weighted 1, "a2" weighted 1, "a3" weighted 1 }'
+    A2 = 'def exp_a { splitters: uid return "c1" weighted 5, "c2" weighted 1 }'
+    B = 'def exp_b { splitters: uid return "b1" weighted 1, "b2" weighted 3 }'
+    BAD_SYN = 'def exp_d { splitters uid return "x" weighted 1 }'
+    BAD_LEX = 'def exp_c { splitters: uid return "x" weighted ; 1 }'
+    valid = {"A": A, "A2": A2, "B": B}
+    invalid = {"BAD_SYN": BAD_SYN, "BAD_LEX": BAD_LEX}
+    texts = dict(valid, **invalid)
+    ids = ["u%d" % i for i in range(24)]
+    fresh = {}
+    for k, t in valid.items():
+        ev = ExperimentEvaluator(t)
+        fresh[k] = [ev(uid=i) for i in ids]
+    max_len = int(p.get("max_len", 4))
+    problems = []
+    quiet = lambda: contextlib.redirect_stdout(io.StringIO())
+    for start in valid:
+        for n in range(1, max_len + 1):
+            for seq in itertools.product(texts, repeat=n):
+                with quiet():
+                    ev = ExperimentEvaluator(valid[start])
+                    by = ExperimentEvaluator(B)
+                accepted = start
+                trail = ["new(%s)" % start]
+                bad = None
+                for name in seq:
+                    trail.append("recompile(%s)" % name)
+                    try:
+                        with quiet():
+                            ev.recompile(texts[name])
+                        if name in invalid:
+                            bad = "recompile(%s) returned without raising" % name
+                            break
+                        accepted = name
+                    except Exception:
+                        if name in valid:
+                            bad = "recompile(%s) raised on a valid text" % name
+                            break
+                    try:
+                        got = [ev(uid=i) for i in ids]
+                    except Exception as e:
+                        got = "raised %s" % type(e).__name__
+                    if got != fresh[accepted]:
+                        bad = "behaves unlike a fresh evaluator of %s" % accepted
+                        break
+                    if [by(uid=i) for i in ids] != fresh["B"]:
+                        bad = "a bystander evaluator changed"
+                        break
+                if bad:
+                    problems.append(" -> ".join(trail) + ": " + bad)
+                    break
+            if problems:
+                break
+        if problems:
+            break
+    return {"reproduced": bool(problems), "expected": "every history conforms to the model", "observed": problems[0] if problems else
+            "no misbehaving history up to %d recompiles" % max_len}
+
+
+@register("same_print_history")
+def replay_same_print_history(p):
+    """After the given calls on ONE evaluator, a splitter value and its str() must still share a bucket."""
+    from pyab_experiment.experiment_evaluator import ExperimentEvaluator
+    calls = [{k: dec(v) for k, v in c.items()} for c in p["calls"]]
+    problems = []
+    for order in (calls, list(reversed(calls))):
+        ev = ExperimentEvaluator(p["text"])
+        for c in order:
+            outcome_of(lambda: ev(**c))
+        for c in order:
+            twin = dict(c)
+            for sname in p["splitters"]:
+                twin[sname] = str(c[sname])
+            a = outcome_of(lambda: ev(**c))
+            b = outcome_of(lambda: ev(**twin))
+            if a[:2] != b[:2]:
+                problems.append("%r -> %s but its printed twin %r -> %s" % (
+                    {k: c[k] for k in p["splitters"]}, show(a), {k: twin[k] for k in p["splitters"]}, show(b)))
+    return {"reproduced": bool(problems), "expected": "values that print identically share a bucket",
+            "observed": "; ".join(problems[:2]) or "all twins agree"}
